@@ -330,12 +330,12 @@ theorem matchAny_spec {D : List Dialect} {cap : Nat} {stop : Bool} (ks : List Ki
     ∀ m t', r = .ok (m, t') → m = (ks.any fun K => mm D K c.μ t.line) ∧ t'.line = t.line ∧ t'.lineNo = t.lineNo := by
   induction ks generalizing t c with
   | nil =>
-    rw [GV.matchAny, run_pure] at h
+    rw [GV.matchAny, prun_pure] at h
     cases h
     exact ⟨FootM.refl _, rfl, Nat.le_refl _, fun m t' he => by cases he; exact ⟨rfl, rfl, rfl⟩⟩
   | cons k ks ih =>
     rw [List.all_cons, Bool.and_eq_true] at hks
-    rw [GV.matchAny, run_bind] at h
+    rw [GV.matchAny, prun_bind] at h
     rcases hr : run (matchP D cap stop k t) c with ⟨r1, c1⟩
     rw [hr] at h
     obtain ⟨hf1, hμ1, hc1, hv1⟩ := matchP_spec hr
@@ -350,7 +350,7 @@ theorem matchAny_spec {D : List Dialect} {cap : Nat} {stop : Bool} (ks : List Ki
       dsimp only at h
       split at h
       · rename_i hm
-        rw [run_pure] at h
+        rw [prun_pure] at h
         cases h
         refine ⟨hf1, hμ1, by simp only [List.length_cons]; omega, fun m t' he => ?_⟩
         cases he
